@@ -121,6 +121,65 @@ def Compile(text, predicate, user_flags=None, import_root=None, rules=None):
   return program, sql
 
 
+def RunWorkflow(text, predicates, user_flags=None, import_root=None,
+                keep_sql=False, runner_log=None):
+  """Runs each predicate the way `logica.py <file> run_in_terminal <p>` does:
+  compile, then concertina_lib.ExecuteLogicaProgram with the SQLite runner of
+  tools/run_in_terminal.py (needed for iterative plans).  Same result shape as
+  RunProgram."""
+  m = Mods()
+  out = {'status': 'ok', 'preds': {}}
+  err = io.StringIO()
+  with contextlib.redirect_stderr(err), contextlib.redirect_stdout(err):
+    from common import concertina_lib
+    from tools import run_in_terminal
+    try:
+      rules = m['parse'].ParseFile(text, import_root=import_root)['rule']
+    except BaseException as e:  # pylint: disable=broad-except
+      if isinstance(e, (KeyboardInterrupt,)):
+        raise
+      out.update(status=Classify(e), stage='parse', cls=type(e).__name__,
+                 msg=ExcText(e))
+      return out
+    for p in predicates:
+      res = {}
+      out['preds'][p] = res
+      try:
+        program = m['universe'].LogicaProgram(rules,
+                                              user_flags=user_flags or {})
+        engine = program.annotations.Engine()
+        sql = program.FormattedPredicateSql(p)
+      except BaseException as e:  # pylint: disable=broad-except
+        if isinstance(e, (KeyboardInterrupt,)):
+          raise
+        res.update(status=Classify(e), stage='compile', cls=type(e).__name__,
+                   msg=ExcText(e))
+        continue
+      if keep_sql:
+        res['sql'] = sql
+      try:
+        runner = run_in_terminal.SqlRunner(engine, logic_program=program)
+        if runner_log is not None:
+          inner = runner
+
+          def Logged(sql_text, eng, is_final, inner=inner):
+            runner_log.append((p, sql_text, is_final))
+            return inner(sql_text, eng, is_final)
+          runner = Logged
+        header, rows = concertina_lib.ExecuteLogicaProgram(
+            [program.execution], runner, engine, display_mode='silent')[p]
+      except BaseException as e:  # pylint: disable=broad-except
+        if isinstance(e, (KeyboardInterrupt,)):
+          raise
+        res.update(status='sqlerror', stage='execute', cls=type(e).__name__,
+                   msg=ExcText(e), sql=sql)
+        continue
+      cols = list(header)
+      res.update(status='ok', cols=cols,
+                 rows=[{c: Tag(v) for c, v in zip(cols, r)} for r in rows])
+  return out
+
+
 def RunProgram(text, predicates, user_flags=None, import_root=None,
                keep_sql=False):
   """Runs each predicate the way `logica.py run` does on SQLite.
